@@ -23,6 +23,9 @@ pub fn for_harness(name: &str, vals: &[Vec<u8>]) -> Option<bool> {
         }
         // values: nr
         "h_arch::configure_nr_pow2range_any" | "h_arch::pow2range_configure_column_count" => Some(sc::vk_read_with_nr_pow2range_cols(le(&vals[0]) as u8)),
+        // values: n
+        "h_zkir::into_bytes_offcircuit_native" => Some(sc::zkir_into_bytes_native_offcircuit(le(&vals[0]) as usize)),
+        "h_batch::batch_verify_no_keys" => Some(sc::batch_verify_empty()),
         _ => None,
     }
 }
@@ -34,6 +37,9 @@ pub fn run(args: &[String]) -> bool {
         "vk-nr" => sc::vk_read_with_nr_pow2range_cols(n(1) as u8),
         "vk-short-fixed" => sc::verify_with_short_fixed_commitments(n(1) as usize),
         "batch-empty" => sc::batch_verify_empty(),
+        "zkir-into-bytes-biguint" => sc::zkir_into_bytes_biguint(n(1) as u32, n(2) as usize),
+        "zkir-into-bytes-native" => sc::zkir_into_bytes_native_offcircuit(n(1) as usize),
+        "zkir-mod-exp" => sc::zkir_mod_exp_offcircuit(n(1), n(2), n(3)),
         _ => {
             println!("unknown scenario");
             false
